@@ -1399,6 +1399,9 @@ class ServiceAnnouncer:
         self.started = True
 
     def stop(self):
+        if not self.started:
+            # already stopped (e.g. connection_lost() after stop()): nothing to do
+            return
         for instance in self.announcing_services:
             instance.stop()
         self.started = False
